@@ -75,7 +75,8 @@ def run(repo: Repo, chk: Check) -> None:
         "(truth table over the 9 sign vectors, for every value of any other atom in the test); O2 every non-None return of _get_key is that "
         "covering envelope or the freshly built root-key envelope at (31, 31), which is also what gets stored; O3 _store_key overwrites iff there "
         "is no entry or the new position is >lex the stored one; O4 in the four API functions the RPC is guarded by a cache miss for the same "
-        "(sd, root key, L0, L1, L2), the store is guarded by 'not a public key' on every path, and the sync/async pairs are twins; O5 KeyCache "
+        "(sd, root key, L0, L1, L2), the store is guarded by 'not a public key' on every path, the protect look-up reports a miss only when no root "
+        "key is named or cache._get_key has nothing covering the current position, and the sync/async pairs are twins; O5 KeyCache "
         "methods contain no await/yield, so each runs atomically under asyncio."
     )
     chk.scope_not = "value-level transparency over whole histories; OS-thread races."
